@@ -166,8 +166,8 @@ def multipleOf(validator, dB, instance, schema):
         return
 
     if isinstance(dB, float):
-        quotient = instance / dB
         try:
+            quotient = instance / dB
             failed = int(quotient) != quotient
         except OverflowError:
             # When `instance` is large and `dB` is less than one,
@@ -182,7 +182,12 @@ def multipleOf(validator, dB, instance, schema):
             # for already-slow enormous integers or Decimals.
             failed = (Fraction(instance) / Fraction(dB)).denominator != 1
     else:
-        failed = instance % dB
+        try:
+            failed = instance % dB
+        except OverflowError:
+            # ``dB`` is an integer too large to convert to a float while
+            # ``instance`` is a float: use exact arithmetic.
+            failed = (Fraction(instance) / Fraction(dB)).denominator != 1
 
     if failed:
         yield ValidationError("%r is not a multiple of %r" % (instance, dB))
